@@ -7,6 +7,7 @@ import os
 from engine import rule, AnchorLost, VERIF
 from model import Super, PathSens, fn_of, trace, strace, is_place, site
 import common
+import flagstate
 import ival
 import tables
 
@@ -450,55 +451,6 @@ def _nth(d, k):
     return d[k] - 1
 
 
-def _start_guards(b):
-    """Switches on the stream's start flag (a bool field of self), read directly or through `!flag`.
-    Returns [(switch_bb, not_started_edge, started_edge, field, adt)], edges as (src, label, dst)."""
-    out = []
-    for gb in sorted(b.reach()):
-        t = b.blocks[gb]["term"]
-        if t["k"] != "switch" or t.get("discr_ty") != "bool" or not is_place(t["discr"]):
-            continue
-        zero = [x for v, x in t["targets"] if v == 0]
-        if not zero:
-            continue
-        # peel copies and at most one negation
-        cur = t["discr"]
-        negated = False
-        tr = None
-        for _ in range(6):
-            tr = trace(b, cur)
-            if tr.origin and tr.origin[0] == "arg":
-                break
-            # find a single `x = Not(y)` definition at the end of the copy chain
-            l = cur["p"]["l"]
-            hops = 0
-            found = False
-            while hops < 6:
-                ds = b.whole_defs(l)
-                if len(ds) != 1 or ds[0][2] != "assign":
-                    break
-                rv = ds[0][3]["rv"]
-                if rv["k"] == "use" and is_place(rv["op"]) and not rv["op"]["p"]["pr"]:
-                    l = rv["op"]["p"]["l"]
-                    hops += 1
-                    continue
-                if rv["k"] == "unop" and rv["op"] == "Not" and is_place(rv["a"]):
-                    negated = not negated
-                    cur = rv["a"]
-                    found = True
-                break
-            if not found:
-                break
-        if not (tr and tr.origin and tr.origin[0] == "arg" and tr.origin[1] == 1 and tr.has("field")):
-            continue
-        fstep = [s_ for s_ in tr.steps if s_[0] == "field"][0]
-        e_zero = (gb, 0, zero[0])
-        e_other = (gb, "otherwise", t["otherwise"])
-        not_started, started = (e_other, e_zero) if negated else (e_zero, e_other)
-        out.append((gb, not_started, started, fstep[1], fstep[2]))
-    return out
-
-
 @rule("R07.4", 3, "a byte order mark is stripped once and only at the start of the stream", ["C07"])
 def r07_4(ctx):
     lib = ctx.lib
@@ -527,31 +479,32 @@ def r07_4(ctx):
         after = b.reachable_from(match_edge[2])
         skips = [(bb, t) for bb, t in b.calls() if bb in after and t is not pull and pdef and (fn_of(t) or {}).get("full") == pdef]
         ctx.ob("bom:dropped-by-pulling-next", bool(skips), site(b, bi), f"after a U+FEFF match the source is pulled again at {len(skips)} site(s)" if skips else "no second pull of the source follows the U+FEFF match (BOM handling not recognised)")
-        guards = _start_guards(b)
+        # the stream's start flag: a two-state field of the encoder (bool or two-variant enum), CLEAR until
+        # the first character has been pulled
+        bsup = Super(lib, b, depth=0)
         found = None
-        for gb, not_started, started, fld, adt in guards:
-            if skips and all(b.edge_dominates(not_started[0], not_started[1], not_started[2], sb) for sb, _ in skips):
-                found = (gb, not_started, started, fld, adt)
+        for fl in flagstate.flags_of(lib, b.raw.get("impl_self_adt") or ""):
+            for tst in flagstate.tests(bsup, fl):
+                ce = tst["edges"][flagstate.CLEAR]
+                if skips and all(b.edge_dominates(ce[0][1], ce[1], ce[2][1], sb) for sb, _ in skips):
+                    found = (fl, tst)
         if not found:
             ctx.ob("bom:only-before-start", False, site(b, bi), "U+FEFF is compared (and dropped) without a start-of-stream guard: ZERO WIDTH NO-BREAK SPACE inside the text would be deleted")
             continue
-        gb, not_started, started, fld, adt = found
-        ctx.ob("bom:only-before-start", True, site(b, bi), f"a matched U+FEFF is skipped only while `{fld}` is still false")
-        setters = []
-        for bj, blk in enumerate(b.blocks):
-            for s in blk["stmts"]:
-                if s["k"] == "assign" and s["p"]["pr"] and s["p"]["pr"][-1]["k"] == "field" and s["p"]["pr"][-1]["name"] == fld and s["rv"]["k"] == "use" and s["rv"]["op"].get("v") is True:
-                    setters.append(bj)
+        fl, tst = found
+        gb = tst["node"][1]
+        se = tst["edges"][flagstate.SET]
+        started = (se[0][1], se[1], se[2][1])
+        fld = fl.field
+        ctx.ob("bom:only-before-start", True, site(b, bi), f"a matched U+FEFF is skipped only while `{fld}` is still in its initial state")
+        ws = flagstate.writes(lib, fl)
+        setters = [wbi for wb, wbi, role, how in ws if wb is b and role == flagstate.SET]
         # every way through the function sets the flag or has seen it set already
         r = b.reachable_from(0, removed_nodes=setters, removed_edges=[started])
-        armed = bool(setters) and 0 not in setters and not any(x in r for x in b.return_blocks()) or (bool(setters) and 0 in setters)
-        ctx.ob("bom:flag-set-first", armed, site(b, gb), f"`{fld} = true` happens on every path that saw it false" if armed else f"`{fld}` is not set on some path: a later U+FEFF would be dropped too")
-        clears = []
-        for b2 in lib.bodies:
-            for blk in b2.blocks:
-                for s in blk["stmts"]:
-                    if s["k"] == "assign" and s["p"]["pr"] and s["p"]["pr"][-1]["k"] == "field" and s["p"]["pr"][-1]["name"] == fld and s["p"]["pr"][-1].get("adt") == adt and s["rv"]["k"] == "use" and s["rv"]["op"].get("v") is False:
-                        clears.append(b2.id)
+        armed = bool(setters) and (0 in setters or not any(x in r for x in b.return_blocks()))
+        ctx.ob("bom:flag-set-first", armed, site(b, gb), f"`{fld}` leaves its initial state on every path that saw it there" if armed else f"`{fld}` is not set on some path: a later U+FEFF would be dropped too")
+        clears = [wb.id for wb, wbi, role, how in ws if role != flagstate.SET]
+        clears += [wb.id for wb, wbi in flagstate.mut_borrow_escapes(lib, fl)]
         ctx.ob("bom:flag-never-cleared", not clears, site(b), "the start flag is never reset" if not clears else f"`{fld}` is reset in {clears}")
 
 
